@@ -2,7 +2,7 @@
 import itertools
 
 from psmc import dsl, analysis, ref, explore as ex
-from psmc.dsl import fixed, var, zero, worker, select, cumul, req, con, prog, R, E, new, const_fn, lin_fn, poly_fn
+from psmc.dsl import fixed, var, zero, worker, select, cumul, req, con, prog, R, E, new, const_fn, lin_fn, poly_fn, setattr_
 from . import common
 
 RULE = ("programs: every indicator class and every objective-created indicator on scenes of 1-3 tasks with workers, alternative "
@@ -98,7 +98,7 @@ def indicator_check(program, built, solver, prims, leaves, job):
             if sig is not None:
                 sig["with_unscheduled_task"] = unsched
                 if d["cls"] in ("IndicatorResourceCost", "ObjectiveMinimizeResourceCost"):
-                    sig["cost"] = sorted({(view.dd[r["$"]]["args"].get("cost") or {"$new": {"cls": "none"}})["$new"]["cls"] for r in d["args"]["list_of_resources"]})
+                    sig["cost"] = sorted({_cost_cls(view, view.dd[r["$"]]["args"].get("cost")) for r in d["args"]["list_of_resources"]})
                 out.append((sig, {"program": program, "leaf": analysis._leaf_list(leaf), "expect": "indicator", "solver": {},
                                   "indicator": name, "indicator_id": d["id"], "admitted_values": admitted, "reference_values": sorted(ok)}))
     job["_distinct"] = len(distinct_vals)
@@ -129,6 +129,12 @@ def resource_indicators(tier):
            ("obj-utilization", [new("ObjectiveMaximizeResourceUtilization", "i1", resource=R("w"))]),
            ("obj-flowtime-single", [new("ObjectiveMinimizeFlowtimeSingleResource", "i1", resource=R("w"))])]
     return out
+
+
+def _cost_cls(view, f):
+    if f is None:
+        return "none"
+    return f["$new"]["cls"] if "$new" in f else view.dd[f["$"]]["cls"] + "/declared"
 
 
 def cost_fns(tier):
@@ -175,6 +181,17 @@ def jobs(tier):
             ts = [fixed("a", 1, due_date=1, due_date_is_deadline=False, priority=3, optional=True),
                   fixed("b", 2, due_date=2, due_date_is_deadline=False, priority=2, **({"optional": True} if ob else {}))]
             out.append(dict(post, program=prog(4, ts + [new(cls, "i1")]), family=cls + "/priorities"))
+    # several busy intervals of odd doubled area each (the halving of the trapezoid sum happens once, on the total)
+    for (flab, f) in (("lin+", lin_fn(1, 0)), ("lin3", lin_fn(3, 1)), ("quad", poly_fn([1, 0, 1]))):
+        out.append(dict(post, program=prog(4, [fixed("a", 1), fixed("b", 1), fixed("c", 1), worker("w", cost=f), req("a", "w"), req("b", "w"), req("c", "w"),
+                                               new("IndicatorResourceCost", "i1", list_of_resources=[R("w")])]), family="cost/three-intervals/" + flab))
+        out.append(dict(post, program=prog(4, [fixed("a", 1), fixed("b", 1), worker("w", cost=f), worker("v", cost=f), req("a", "w"), req("b", "v"),
+                                               new("IndicatorResourceCost", "i1", list_of_resources=[R("w"), R("v")])]), family="cost/two-workers/" + flab))
+    # a cost function declared as an object of its own, one attribute assigned after construction (before the indicator)
+    for (cls, args, attr, val) in (("ConstantFunction", {"value": 2}, "value", 5), ("LinearFunction", {"slope": 1, "intercept": 0}, "slope", 2),
+                                   ("LinearFunction", {"slope": 1, "intercept": 0}, "intercept", 3)):
+        out.append(dict(post, program=prog(4, [fixed("a", 2), new(cls, "f", **args), worker("w", cost=R("f")), req("a", "w"), setattr_("f", attr, val),
+                                               new("IndicatorResourceCost", "i1", list_of_resources=[R("w")])]), family="cost/function-attribute-set"))
     # cost over a list that mixes plain and cumulative workers, in both orders
     for order in (["w", "k"], ["k", "k2"], ["w", "k", "k2"]):
         p_ = prog(3, [fixed("a", 1), fixed("b", 2), worker("w", cost=const_fn(2)), cumul("k", 2, cost=const_fn(4)), cumul("k2", 2, cost=const_fn(2)),
